@@ -7,7 +7,8 @@ import Lemmas.BitSet
 open Proto
 
 /-! Model driver of C08: two bit sets `A`, `B` per history, executed on the HEAP model (`Model/BitSetHeap.lean`): every
-    mutating line is parsed to a `BS.Op` and executed by `BS.applyOpH`; the slices that cross the API (arguments of
+    mutating line is parsed to a `BS.Op` and executed by `BS.applyOpH` and prints `Count` and a hash of the canonical
+    words of the whole set (`stateHash`), so every line compares the complete abstract state; the slices that cross the API (arguments of
     `Load`, results of `Data`) are heap arrays of the caller, which the driver scribbles on or keeps and re-checks exactly
     as the Go harness does (`hand`, suffix ` ALIAS:<what>`).  All values printed are read from the heap through
     `Heap.view`; `C08.heap_refines` / `C08.no_aliasing` relate this to the value model `BS.applyOp`, the one the set
@@ -35,9 +36,28 @@ def stateWord (b : BS.T) (k : Nat) : Nat :=
 def dropTrailingZeros (l : List Nat) : List Nat :=
   (l.reverse.dropWhile (· == 0)).reverse
 
+/-- the harness scans `scanWords` words through `State`.  Here the scan runs through `BS.state` as well, bit by bit, but on
+    the first `scanWords` words of the storage (`C08.state_scan_window`: a window answers `State` like the whole storage
+    for every index inside it — this only saves walking a long list 4224 times), and the words above the capacity are not
+    evaluated one bit at a time: `BS.state` answers `false` there by its first branch (`i ≥ len(b.data)`), and trailing
+    zero words are dropped from the printed list anyway.  One word past the capacity is still evaluated. -/
 def memStr (b : BS.T) : String :=
-  let ws := dropTrailingZeros ((List.range scanWords).map (stateWord b))
+  let bw : BS.T := { b with data := b.data.take scanWords }
+  let ws := dropTrailingZeros ((List.range (min scanWords (bw.data.length + 1))).map (stateWord bw))
   if ws.isEmpty then "-" else ",".intercalate (ws.map natToHex)
+
+/-- the full abstract state as the harness prints it after every mutating line: multiply-xorshift hash (64-bit wrap-around; the shifts fold the high bits back, a plain FNV
+    product would let bit 63 of two words cancel)
+    of the minimal word list `Clone().Data()` returns, i.e. of `(BS.data b).2` (`C08.data_canonical`: equal exactly when
+    the members are) -/
+def stateHash (b : BS.T) : String :=
+  let d := (BS.data (BS.clone b)).2
+  let h := d.foldl (fun (h : UInt64) (w : BS.W) =>
+    let h1 := (h ^^^ w.toNat.toUInt64) * 0x100000001b3
+    h1 ^^^ (h1 >>> 29)) 0xcbf29ce484222325
+  let h := (h ^^^ d.length.toUInt64) * 0x100000001b3
+  let h := h ^^^ (h >>> 32)
+  natToHex h.toNat
 
 def reg? (r : String) : Option BS.Reg :=
   if r == "A" then some .A else if r == "B" then some .B else none
@@ -128,7 +148,7 @@ def exec (s : DS) (ws : List String) : DS × String :=
       let selfCopy := match ws with
         | ["copy", r, q] => r == q
         | _ => false
-      (s', toString (BS.count (h'.view r)) ++ (if selfCopy then " " ++ memStr (h'.view r) else ""))
+      (s', toString (BS.count (h'.view r)) ++ " h=" ++ stateHash (h'.view r) ++ (if selfCopy then " " ++ memStr (h'.view r) else ""))
   | none =>
     match ws with
     | ["pc", w] =>
